@@ -365,7 +365,7 @@ class ExprMem(Expr):
             return False
         return self.arg == a.arg and self.size == a.size and self.segm == a.segm
     def __lt__(self, a):
-        return id(self) < id(a)
+        return key_expr(self) < key_expr(a)
     def __hash__(self):
         return hash(self.arg)^hash(self.size)^hash(self.segm)
     def toC(self):
